@@ -351,3 +351,40 @@ fn add_part(mangled: &mut String, part: &MangledPart) {
         mangled.push_str(&part.text);
     }
 }
+
+#[cfg(capy_verif)]
+pub mod verif_hooks {
+    use super::*;
+
+    /// kinds: 0 Module, 1 FileOrFolder, 2 Name, 3 GenericID, 4 Lambda, 5 Comptime, 6 InternalData
+    fn kind(k: u8) -> MangledPartKind {
+        match k {
+            0 => MangledPartKind::Module,
+            1 => MangledPartKind::FileOrFolder,
+            2 => MangledPartKind::Name,
+            3 => MangledPartKind::GenericID,
+            4 => MangledPartKind::Lambda,
+            5 => MangledPartKind::Comptime,
+            _ => MangledPartKind::InternalData,
+        }
+    }
+
+    /// the letter table + `add_part` assembly of `create_mangled_for_file`, on explicit parts
+    pub fn mangle_parts(parts: &[(u8, &str)]) -> String {
+        let mut mangled = String::new();
+        for (k, _) in parts {
+            mangled.push(kind(*k).to_code());
+        }
+        for (k, text) in parts {
+            add_part(
+                &mut mangled,
+                &MangledPart {
+                    kind: kind(*k),
+                    text: (*text).into(),
+                },
+            );
+        }
+        mangled.push('E');
+        mangled
+    }
+}
